@@ -46,6 +46,9 @@ type Net struct {
 	open     []*UDPConn
 	Sent     []*Datagram
 	NextPort uint16
+	// StickyPort: every bind to port 0 gets the port NextPort names and NextPort
+	// stays as it is (the system hands out the same ephemeral port again and again)
+	StickyPort bool
 	// OnSend is called synchronously by the sending goroutine after the
 	// datagram was logged; its result decides the TX timestamp (nil = default:
 	// present, now, correct id).
@@ -169,7 +172,9 @@ func (lc *ListenConfig) ListenPacket(ctx context.Context, network, address strin
 	n.mu.Lock()
 	if ap.Port() == 0 {
 		ap = netip.AddrPortFrom(ap.Addr(), n.NextPort)
-		n.NextPort++
+		if !n.StickyPort {
+			n.NextPort++
+		}
 	}
 	c := &UDPConn{net: n, FD: FDBase + len(n.Socks), laddr: ap, rxq: make(chan *Datagram, 1024), Opts: map[[2]int]int{}}
 	n.Socks = append(n.Socks, c)
